@@ -592,6 +592,50 @@ func r40DecodeTotal(c *core.Ctx) {
 		}
 		c.Check(R, "id-parse-error-returned/tms20.unmarshalTileMatrices", f.Decl.Pos(), okc, "tile matrix ids parsed with strconv and the error is returned", "tile matrix ids are not parsed as integers with the parse error returned")
 	}
+	// (g) decode targets are fresh per element: a value decoded into inside a loop is allocated inside that loop
+	// (UnmarshalJSONFromMap/marshmallow only assign keys that are present, a reused target keeps stale fields
+	// that then pass the required/gt=0 validation)
+	ndec := 0
+	for _, f := range decodeFuncs {
+		if f.SSA == nil {
+			continue
+		}
+		loops := naturalLoops(f.SSA)
+		for _, b := range f.SSA.Blocks {
+			for _, in := range b.Instrs {
+				call, ok := in.(*ssa.Call)
+				if !ok {
+					continue
+				}
+				cal := call.Call.StaticCallee()
+				if cal == nil || !(strings.HasPrefix(cal.Name(), "UnmarshalJSON") || strings.HasPrefix(cal.Name(), "Unmarshal")) || len(call.Call.Args) == 0 {
+					continue
+				}
+				var loop map[*ssa.BasicBlock]bool
+				for _, set := range loops {
+					if set[b] && (loop == nil || len(set) < len(loop)) {
+						loop = set
+					}
+				}
+				if loop == nil {
+					continue
+				}
+				// the pointer argument(s) that are decoded into
+				for _, a := range call.Call.Args {
+					al, isAlloc := core.Unwrap(a).(*ssa.Alloc)
+					if !isAlloc {
+						continue
+					}
+					ndec++
+					c.Check(R, fmt.Sprintf("decode-target-fresh-per-element/%s/%s", f.Name, al.Comment), call.Pos(), loop[al.Block()],
+						"the value decoded into is allocated inside the loop iteration", "a value declared outside the loop is decoded into for every element: keys missing from one element keep the previous element's values and pass validation")
+				}
+			}
+		}
+	}
+	if ndec == 0 {
+		c.Bad(R, "decode-target-fresh-per-element/none", token.NoPos, "no per-element decode target found (floor 1)")
+	}
 	// explicit panics on the decode graph: none allowed in module code
 	npanic := 0
 	for _, f := range decodeFuncs {
